@@ -442,6 +442,9 @@ class LaplaceDomainExpression(LaplaceDomain, Expr):
         else:
             raise ValueError('Unknown method %s' % method)
 
+        if (method in ('impulse-invariance', 'adhoc') or expr.is_ratio
+                or expr.is_undefined):
+            return result
         return result * dtval
 
     def state_space(self, form='CCF'):
